@@ -50,6 +50,9 @@ GRAMMARS = {
     'nullable-closure-pattern': "start: {/a?/} {[@int]}+ '.' ;\n",
     'nullable-join': "start: '.'%{['+']} 'e' | '.'.{/a?/}+ '1' ;\n",
     'nullable-rule-closure': "start: {n}+ '.' | {$->} 'e' ;\n\nn: ['a'] ['+'] ;\n",
+    # @name rules whose value is not a string: a list (dotted name), a dict (named element), a number, nothing at all
+    'keyword-compound-name': "@@keyword :: a e\n\nstart: {n}+ $ ;\n\n@name\nn: /[ae_]+/ {'.' /[ae_]+/} | '+' k:/[ae]/ | @int | '-' () ;\n",
+    'keyword-compound-name-ic': "@@ignorecase :: True\n@@keyword :: a E\n\nstart: {n}+ $ ;\n\n@name\nn: /[ae_]+/ {'.' /[ae_]+/} | '+' k:/[ae]/ | @int | '-' () ;\n",
 }
 # grammars whose whitespace pattern can match the empty string
 WS_GRAMMARS = {
